@@ -319,7 +319,7 @@ PROPS['C13'] = dict(
     rule='case = (valid base problem, 0-2 corruptions out of 27 kinds incl. non-finite knots, ill-posed monotonic tuples and negative / NaN smoothing strengths and weights) fitted into an empty and into a populated table and through the C wrapper; '
          'distinct_nontrivial counts distinct (case, corruption set) tuples',
     assumptions=ASSUME_COMMON,
-    require={'any': {'tuples-must-reject': 500, 'tuples-may-complete': 200, 'fits-into-populated-table': 500, 'C-wrapper-calls': 300}},
+    require={'any': {'tuples-must-reject': 500, 'tuples-may-complete': 200, 'fits-into-populated-table': 500, 'C-wrapper-calls': 300, 'high-order-consistent-requests': 40, 'consistent-requests-in-5-or-6-dimensions': 40}},
 )
 
 
@@ -403,7 +403,7 @@ PROPS['C14'] = dict(
     rule='case = (table of 1-4 dims, order 0-5 in the convolved dimension, any dimension index, irregular knots, kernel of 2-6 increasing knots, symmetric or not, 0.05x-5x the knot spacing) x 10-60 points; '
          'distinct_nontrivial counts distinct (table, kernel, point) triples with M>0',
     assumptions=ASSUME_COMMON,
-    require={'any': {'points-checked': 1500, 'C-wrapper-comparisons': 100, 'order:0': 5, 'order:5': 5, 'concurrent-convolution-rounds': 150, 'axis-unit:1e-09': 20, 'aliasing-kernel-comparisons': 40, 'hist:judged-convolutions': 200, 'runs-compared-with-the-clean-heap-run': 1000, 'tables-with-geometrically-graded-knots-in-the-convolved-dimension': 60}},
+    require={'any': {'points-checked': 1500, 'C-wrapper-comparisons': 100, 'order:0': 5, 'order:5': 5, 'concurrent-convolution-rounds': 150, 'axis-unit:1e-09': 20, 'aliasing-kernel-comparisons': 40, 'hist:judged-convolutions': 200, 'runs-compared-with-the-clean-heap-run': 1000, 'tables-with-geometrically-graded-knots-in-the-convolved-dimension': 60, 'tables-with-commensurate-inexact-knots-and-kernel': 15}},
 )
 PROPS['C15'] = dict(
     level_text='Exhaustive over all 153 permutations of 1-5 dimensions (plus sampled 6-d ones) on tables whose axes have pairwise different lengths, orders, extents and periods: every per-dimension attribute, '
@@ -468,7 +468,7 @@ PROPS['C18'] = dict(
     level='exploration',
     rule='case = one call sequence; distinct_nontrivial counts distinct sequences (hash of the (call kind, handle) sequence)',
     assumptions=ASSUME_COMMON,
-    require={'any': {'calls:readsplinefitstable': 300, 'calls:splinetable_glamfit': 200, 'calls:splinetable_convolve': 50, 'calls:evaluation': 100, 'calls:on-null-data-handle': 50, 'calls:splinetable_free': 100, 'get_key:results-re-examined-after-fetching-other-keys': 10}},
+    require={'any': {'calls:readsplinefitstable': 300, 'calls:splinetable_glamfit': 200, 'calls:splinetable_convolve': 50, 'calls:evaluation': 100, 'calls:on-null-data-handle': 50, 'calls:splinetable_free': 100, 'get_key:results-re-examined-after-fetching-other-keys': 10, 'calls:splinetable_grideval:too-long-for-the-index-type': 3}},
 )
 
 
